@@ -197,6 +197,15 @@ def judge(stats: Stats, sub, expr, doc_bytes, opts, tag, real=False):
                 stats.fail("cli:%s:stdout-not-empty-with-o" % sub, case, "with -o the tool also wrote %r to stdout" % out[:80])
             try:
                 text = open(outp, encoding="utf-8").read()
+                if not text and not real:
+                    # in-process only: the tool leaves its -o handle to be closed at interpreter exit; when something still
+                    # refers to it here (a cycle), nothing has been flushed yet - collect, then read again
+                    import gc
+                    gc.collect()
+                    text = open(outp, encoding="utf-8").read()
+                    if not text:
+                        code2, out2, err2, _ = run_subprocess(argv, stdin)
+                        text = open(outp, encoding="utf-8").read() if code2 == 0 else text
             except OSError:
                 stats.fail("cli:%s:no-output-file" % sub, case, "-o file was not written")
                 return "bad"
